@@ -53,6 +53,10 @@ type mbolt struct {
 	txs     map[*bbolt.Tx]*mTx
 	buckets map[*bbolt.Bucket]*mBucket
 	cursors map[*bbolt.Cursor]*mCursor
+	// Batch: another caller's function that bbolt coalesces into the same
+	// transaction as the next Batch call (before or after it)
+	batchMate  func(*bbolt.Tx) error
+	mateFirst  bool
 }
 
 const zzB = "(*go.etcd.io/bbolt."
@@ -141,6 +145,52 @@ func zzInstallMbolt() *mbolt {
 		}
 		m.txs[tx] = mt
 		return tx, nil
+	})
+	// Batch, as bbolt documents and implements it (batch.run): the functions
+	// of the coalesced callers run in ONE managed update; if one fails the
+	// whole transaction is rolled back, the failing function is taken out
+	// (its submitter re-runs it alone) and the others are run AGAIN in a
+	// fresh transaction - "fn may be called multiple times"
+	verifrt.StubFunc(zzB+"DB).Batch", func(d *bbolt.DB, fn func(*bbolt.Tx) error) error {
+		if m.batchMate == nil {
+			return d.Update(fn)
+		}
+		mate := m.batchMate
+		m.batchMate = nil
+		type call struct {
+			fn   func(*bbolt.Tx) error
+			mine bool
+		}
+		calls := []call{{fn, true}, {mate, false}}
+		if m.mateFirst {
+			calls = []call{{mate, false}, {fn, true}}
+		}
+		for len(calls) > 0 {
+			failIdx := -1
+			err := d.Update(func(tx *bbolt.Tx) error {
+				for i, c := range calls {
+					if err := c.fn(tx); err != nil {
+						failIdx = i
+						return err
+					}
+				}
+				return nil
+			})
+			if failIdx < 0 {
+				return err
+			}
+			failed := calls[failIdx]
+			calls = append(calls[:failIdx:failIdx], calls[failIdx+1:]...)
+			if failed.mine {
+				// the other member is re-run as its own batch, this caller
+				// re-runs its function alone
+				for _, c := range calls {
+					_ = d.Update(c.fn)
+				}
+				return d.Update(fn)
+			}
+		}
+		return nil
 	})
 	verifrt.StubFunc(zzB+"DB).Close", func(d *bbolt.DB) error {
 		// bbolt's Close takes the mmap lock exclusively: it waits for every
@@ -364,9 +414,12 @@ func zzInstallMbolt() *mbolt {
 
 // zzOpenDB returns the adapter over mbolt (symbolic) or over a real bbolt
 // file (native).
+var zzMbolt *mbolt
+
 func zzOpenDB() (walletdb.DB, func() walletdb.DB) {
 	if verifrt.Symbolic() {
 		m := zzInstallMbolt()
+		zzMbolt = m
 		bdb := &bbolt.DB{}
 		m.dbs[bdb] = &mDB{root: memdb.NewTree()}
 		d := (*db)(bdb)
@@ -425,10 +478,10 @@ func (r *zzRef) clone() *zzRef {
 	return c
 }
 
-func zzApplyOps(tx walletdb.ReadWriteTx, ref *zzRef, nOps int) {
+func zzApplyOps(tx walletdb.ReadWriteTx, ref *zzRef, nOps, nKeys int) {
 	top := tx.ReadWriteBucket([]byte("t"))
 	for o := 0; o < nOps; o++ {
-		switch verifrt.Choice(7, "op") {
+		switch verifrt.Choice(6, "op") + 1 {
 		case 6: // a second top-level bucket: created with content, or looked
 			// up, deleted and looked up again - all inside this transaction
 			if !ref.hasU {
@@ -448,9 +501,9 @@ func zzApplyOps(tx walletdb.ReadWriteTx, ref *zzRef, nOps int) {
 				verifrt.Assert(tx.DeleteTopLevelBucket([]byte("u")) == walletdb.ErrBucketNotFound, "c11-delete-missing-top-level")
 				verifrt.Reach("top-level-deleted")
 			}
-		case 0, 1: // put in top / nested
+		case 1: // put in top / nested
 			nested := verifrt.Choice(2, "where") == 1
-			k := zzKeys[verifrt.Choice(len(zzKeys), "key")]
+			k := zzKeys[verifrt.Choice(nKeys, "key")]
 			// the value: two symbolic bytes, or empty, or nil (bbolt stores
 			// both of the latter as a present key with a zero-length value)
 			var v []byte
@@ -481,7 +534,7 @@ func zzApplyOps(tx walletdb.ReadWriteTx, ref *zzRef, nOps int) {
 			ck, _ := b.ReadWriteCursor().Seek(k)
 			verifrt.Assert(string(ck) == string(k), "c11-read-your-writes-by-cursor")
 		case 2: // delete
-			k := zzKeys[verifrt.Choice(len(zzKeys), "key")]
+			k := zzKeys[verifrt.Choice(nKeys, "key")]
 			verifrt.Assert(top.Delete(k) == nil, "c11-delete")
 			delete(ref.top, string(k))
 			verifrt.Assert(top.Get(k) == nil, "c11-deleted-gone-in-own-tx")
@@ -596,7 +649,11 @@ func zzCheckContent(d walletdb.DB, ref *zzRef, label string) {
 	verifrt.Assert(err == nil, label+"-view-ok")
 }
 
-func zzC11(nTx, nOps int) {
+func zzC11(nTx, nOps int) { zzC11B(nTx, nOps, len(zzKeys), true) }
+
+// zzC11B: nKeys of the keys are written or deleted; finalView adds the
+// read-only transaction that ends in success, an error or a panic.
+func zzC11B(nTx, nOps, nKeys int, finalView bool) {
 	d, reopen := zzOpenDB()
 	ref := &zzRef{top: map[string][]byte{}, nested: map[string][]byte{}}
 	verifrt.Assert(walletdb.Update(d, func(tx walletdb.ReadWriteTx) error {
@@ -615,7 +672,7 @@ func zzC11(nTx, nOps int) {
 				}
 			}()
 			err = walletdb.Update(d, func(tx walletdb.ReadWriteTx) error {
-				zzApplyOps(tx, work, nOps)
+				zzApplyOps(tx, work, nOps, nKeys)
 				switch outcome {
 				case 1:
 					return zzErrAbort
@@ -643,7 +700,11 @@ func zzC11(nTx, nOps int) {
 	// a read-only transaction that ends in an error or a panic changes
 	// nothing and leaves the database usable (its transaction is released:
 	// the close below would otherwise never return)
-	switch verifrt.Choice(3, "final-view") {
+	fv := 0
+	if finalView {
+		fv = verifrt.Choice(3, "final-view")
+	}
+	switch fv {
 	case 1:
 		verr := walletdb.View(d, func(tx walletdb.ReadTx) error {
 			verifrt.Assert(tx.ReadBucket([]byte("t")) != nil, "c11-view-sees-top-bucket")
@@ -671,5 +732,70 @@ func zzC11(nTx, nOps int) {
 
 func ZzC11T1O2() { zzC11(1, 2) }
 func ZzC11T2O1() { zzC11(2, 1) }
-func ZzC11T2O2() { zzC11(2, 2) }
-func ZzC11T3O1() { zzC11(3, 1) }
+func ZzC11T2O2() { zzC11B(2, 2, 2, false) }
+func ZzC11T3O1() { zzC11B(3, 1, len(zzKeys), false) }
+
+// ZzC11Batch: the package-level Batch helper. The caller's function is
+// coalesced by bbolt with another caller's function (before or after it in
+// the shared transaction); either may fail. Whatever bbolt does to get there
+// (roll the shared transaction back, run the surviving functions again), a
+// Batch that returns nil has made all of its function's changes visible, one
+// that returns the function's error has made none, and the other caller's
+// successful function is committed exactly once.
+func ZzC11Batch() {
+	if !verifrt.Symbolic() {
+		return // the coalescing is played by the bbolt model only
+	}
+	d, reopen := zzOpenDB()
+	ref := &zzRef{top: map[string][]byte{}, nested: map[string][]byte{}}
+	verifrt.Assert(walletdb.Update(d, func(tx walletdb.ReadWriteTx) error {
+		_, err := tx.CreateTopLevelBucket([]byte("t"))
+		return err
+	}) == nil, "c11-setup")
+	v := verifrt.Bytes("val", 2)
+	mv := verifrt.Bytes("mate-val", 2)
+	mine := verifrt.Choice(2, "my-outcome") // 0 ok, 1 error
+	mates := verifrt.Choice(3, "mate")      // 0 none, 1 ok, 2 fails
+	if mates > 0 {
+		zzMbolt.mateFirst = verifrt.Choice(2, "mate-first") == 1
+		zzMbolt.batchMate = func(btx *bbolt.Tx) error {
+			b := btx.Bucket([]byte("t"))
+			if err := b.Put([]byte("b"), mv); err != nil {
+				return err
+			}
+			if mates == 2 {
+				return zzErrAbort
+			}
+			return nil
+		}
+		verifrt.Reach("coalesced")
+	}
+	runs := 0
+	err := walletdb.Batch(d, func(tx walletdb.ReadWriteTx) error {
+		runs++
+		b := tx.ReadWriteBucket([]byte("t"))
+		if err := b.Put([]byte("a"), v); err != nil {
+			return err
+		}
+		if mine == 1 {
+			return zzErrAbort
+		}
+		return nil
+	})
+	if runs > 1 {
+		verifrt.Reach("function-run-again")
+	}
+	if mine == 0 {
+		verifrt.Assert(err == nil, "c11-batch-ok")
+		ref.top["a"] = v
+	} else {
+		verifrt.Assert(err == zzErrAbort, "c11-batch-error-propagated")
+	}
+	if mates == 1 {
+		ref.top["b"] = mv
+	}
+	zzCheckContent(d, ref, "c11-batch")
+	d = reopen()
+	zzCheckContent(d, ref, "c11-batch-reopened")
+	verifrt.Reach("c11-end")
+}
